@@ -38,6 +38,11 @@ def _install_clock(loop):
     for mod in (_sched, _dbg):
         if mod is not None and hasattr(mod, "perf_counter"):
             mod.perf_counter = perf_counter
+    # also for code that calls time.perf_counter() through the module (restored by Run.execute)
+    import time as _time
+    if not hasattr(_time, "_verif_real_perf_counter"):
+        _time._verif_real_perf_counter = _time.perf_counter
+    _time.perf_counter = perf_counter
     return perf_counter
 
 
@@ -193,6 +198,9 @@ class Run:
             except Exception:  # noqa: BLE001
                 pass
             self.dead = True
+            import time as _time
+            if hasattr(_time, "_verif_real_perf_counter"):
+                _time.perf_counter = _time._verif_real_perf_counter
             gc.collect(1)
             env.LOG_SINK.pop()
             stubs.CTX = None
